@@ -11,7 +11,7 @@
                                               upward propagation of needs-recalc)
      invalidate     = InvalidatePulseTime
      remove_child   = RemovePulseChild       put_child = PutPulseChild
-     clear_children = ClearPulseChildren     destroy   = ~PulseNode
+     clear_list/clear_children = ClearPulseChildren          destroy = ~PulseNode
      get_aux        = GetPulseTimeAux        pulse_aux = PulseAux
    The virtual callbacks GetPulseTime()/Pulse() are oracles (Section variables [gt], [pl]):
    arbitrary functions of (node, number of earlier calls, now, previous/scheduled time) that
@@ -155,22 +155,25 @@ Definition put_child (f : nat) (m : nmap) (p c : nat) : option nmap :=
   | Some m1 => resched f (upd m1 c (set_parent (m1 c) (Some p))) p c LRecalc
   end.
 
-Fixpoint remove_children (f : nat) (m : nmap) (p : nat) (cs : list nat) : option nmap :=
-  match cs with
-  | [] => Some m
-  | c :: t => match remove_child f m p c with None => None | Some m1 => remove_children f m1 p t end
+(* while(_firstChild[l]) RemovePulseChild(_firstChild[l]) *)
+Fixpoint clear_list (f : nat) (m : nmap) (x : nat) (l : lst) : option nmap :=
+  match f with
+  | O => None
+  | S f' =>
+    match get_list (m x) l with
+    | [] => Some m
+    | c :: _ => match remove_child f' m x c with None => None | Some m1 => clear_list f' m1 x l end
+    end
   end.
 
-(* ClearPulseChildren: for each of the three lists, remove its head until it is empty.
-   Removing the head of one list leaves the rest of that list and the other two lists of
-   the same node as they are, so the loop visits exactly the members present at its start. *)
+(* ClearPulseChildren: for each of the three lists, remove its head until it is empty *)
 Definition clear_children (f : nat) (m : nmap) (x : nat) : option nmap :=
-  match remove_children f m x (ls (m x)) with
+  match clear_list f m x LSched with
   | None => None
   | Some m1 =>
-    match remove_children f m1 x (lu (m1 x)) with
+    match clear_list f m1 x LUnsched with
     | None => None
-    | Some m2 => remove_children f m2 x (lr (m2 x))
+    | Some m2 => clear_list f m2 x LRecalc
     end
   end.
 
